@@ -313,6 +313,10 @@ def find_blocked_reactions(
         reaction_list = solution.fluxes[
             solution.fluxes.abs() < zero_cutoff
         ].index.tolist()
+        # Whether a reaction can carry flux does not depend on the objective.
+        # With the objective in place FVA would only consider flux distributions
+        # whose objective value is not negative (not positive when minimizing).
+        model.objective = Zero
         # Run FVA to find reactions where both the minimal and maximal flux
         # are zero (below the cut off).
         flux_span = flux_variability_analysis(
